@@ -120,6 +120,83 @@ func sweep(store string, seedsChecked bool) localResult {
 	return res
 }
 
+// wideLevels: levels wider than the two nodes of the call alphabet, with every --hq-batch-size around them (the
+// configured size, 1 and 2 below every width, and the default): a level of w never-seen assets is fetched whole,
+// the same level under another page is skipped whole, and a level that mixes seen and new URLs in alternation
+// (so that every batch boundary falls between a seen and a new one) fetches exactly the new ones.
+func wideLevels(store string) localResult {
+	var res localResult
+	level := func(ns string, ids []int) (built []bool) {
+		seqCounter++
+		parentURL := &models.URL{Raw: fmt.Sprintf("http://s.example/%s/wide-parent-%d", ns, seqCounter)}
+		if err := parentURL.Parse(); err != nil {
+			panic(err)
+		}
+		seed := models.NewItem(fmt.Sprintf("s%d", seqCounter), parentURL, "")
+		var nodes []*models.Item
+		for _, id := range ids {
+			ch := models.NewItem(fmt.Sprintf("c%d-%d", seqCounter, id), &models.URL{Raw: fmt.Sprintf("http://s.example/%s/img/%d.png?w=10&h=%d", ns, id, id)}, "")
+			if err := seed.AddChild(ch, models.ItemGotChildren); err != nil {
+				panic(err)
+			}
+			nodes = append(nodes, ch)
+		}
+		preprocessor.VerifC08Preprocess(seed)
+		for _, n := range nodes {
+			attached := false
+			for _, ch := range seed.GetChildren() {
+				attached = attached || ch == n
+			}
+			built = append(built, attached && n.GetStatus() == models.ItemPreProcessed && n.GetURL().GetRequest() != nil)
+		}
+		return
+	}
+	saved := config.Get().HQBatchSize
+	defer func() { config.Get().HQBatchSize = saved }()
+	batches := []int{0}
+	if strings.HasPrefix(store, "hq") {
+		batches = []int{0, 1, 2, 3}
+	}
+	for _, batch := range batches {
+		config.Get().HQBatchSize = batch
+		for _, w := range []int{3, 4, 5, 7} {
+			ns := fmt.Sprintf("wide%s-b%d-w%d", store[:1], batch, w)
+			var first, odd, all []int
+			for i := 0; i < w; i++ {
+				all = append(all, i)
+				if i%2 == 0 {
+					first = append(first, i)
+				} else {
+					odd = append(odd, i)
+				}
+			}
+			steps := []struct {
+				what string
+				ids  []int
+				want func(id int) bool
+			}{
+				{"the even ones, never seen", first, func(int) bool { return true }},
+				{"all of them, the even ones seen", all, func(id int) bool { return id%2 == 1 }},
+				{"all of them again", all, func(int) bool { return false }},
+			}
+			for si, st := range steps {
+				got := level(ns, st.ids)
+				for k, id := range st.ids {
+					res.Checks++
+					if got[k] != st.want(id) {
+						res.Failures = append(res.Failures, seqFailure{Sig: fmt.Sprintf("%s:%s:asset:wide-level", store, map[bool]string{true: "refetched-although-seen", false: "skipped-although-not-seen"}[got[k]]),
+							Store: store, Detail: fmt.Sprintf("--hq-batch-size %d, a level of %d assets, step %d (%s): asset %d: reference says built=%v, Zeno: built=%v (whole level: %v)", batch, len(st.ids), si+1, st.what, id, st.want(id), got[k], got)})
+						break
+					}
+				}
+			}
+			_ = odd
+			res.Histories++
+		}
+	}
+	return res
+}
+
 // twinURLs: pairs of distinct canonical URLs (checked at start-up) that a percent-decoding of the whole URL would merge.
 var twinURLs = [][2]string{
 	{"http://s.example/x/search?a=1%26b=2", "http://s.example/x/search?a=1&b=2"},
@@ -328,6 +405,8 @@ func runLocal(depth, shard, of int) localResult {
 	res := enumerate("local", depth, shard, of, true)
 	if shard == 0 {
 		sw := sweep("local", true)
+		wl := wideLevels("local")
+		sw.Histories, sw.Checks, sw.Failures = sw.Histories+wl.Histories, sw.Checks+wl.Checks, append(sw.Failures, wl.Failures...)
 		res.Histories, res.Checks, res.Failures = res.Histories+sw.Histories, res.Checks+sw.Checks, append(res.Failures, sw.Failures...)
 	}
 	if shard == 1%of {
@@ -525,6 +604,18 @@ func replayHistory(f *seqFailure) (string, bool) {
 		fake.reversed = f.Store == "hq-reversed-answer"
 		fake.fail = strings.Contains(f.Sig, "hq-failed")
 	}
+	if strings.HasSuffix(f.Sig, ":wide-level") {
+		store := "hq"
+		if strings.HasPrefix(f.Store, "local") {
+			store = "local"
+		}
+		for _, g := range wideLevels(store).Failures {
+			if g.Sig == f.Sig {
+				return g.Detail, true
+			}
+		}
+		return "", false
+	}
 	if f.Text != "" {
 		saved := urlAlpha
 		urlAlpha = []spelling{{f.Text, "self"}}
@@ -568,6 +659,8 @@ func runHQ(depth, shard, of int) localResult {
 	if shard == 0 {
 		fake.seen = map[string]string{}
 		sw := sweep("hq", false)
+		wl := wideLevels("hq")
+		sw.Histories, sw.Checks, sw.Failures = sw.Histories+wl.Histories, sw.Checks+wl.Checks, append(sw.Failures, wl.Failures...)
 		res.Histories, res.Checks, res.Failures = res.Histories+sw.Histories, res.Checks+sw.Checks, append(res.Failures, sw.Failures...)
 	}
 	res.Histories += rev.Histories
